@@ -647,3 +647,44 @@ Proof.
   destruct (only_un (reported p u)); [left; reflexivity|right].
   rewrite andb_true_r. apply existsb_exists. exists UN. split; [exact Hin|apply N.eqb_refl].
 Qed.
+
+Lemma nojump_lower_ok_all :
+  (forall s, has_jump s = false -> lower_ok_s s = true /\ sets_ll s = false /\ free_jump s = false) /\
+  (forall b, has_jump_b b = false -> lower_ok_b b = true /\ sets_ll_b b = false /\ free_jump_b b = false) /\
+  (forall hs, has_jump_hs hs = false -> lower_ok_hs hs = true /\ free_jump_hs hs = false).
+Proof.
+  apply syntax_mutind; cbn [has_jump has_jump_b has_jump_hs lower_ok_s lower_ok_b lower_ok_hs sets_ll sets_ll_b free_jump free_jump_b free_jump_hs];
+    try (intros; repeat split; reflexivity); try (intros; discriminate).
+  - intros b IHb e IHe H. apply orb_false_iff in H. destruct H as [Hb He].
+    destruct (IHb Hb) as (A1 & A2 & A3). destruct (IHe He) as (B1 & B2 & B3).
+    rewrite A1, B1, A3, B3. repeat split; reflexivity.
+  - intros fv b IHb e IHe H. apply orb_false_iff in H. destruct H as [Hb He].
+    destruct (IHb Hb) as (A1 & A2 & A3). destruct (IHe He) as (B1 & B2 & B3).
+    rewrite A1, B1, B3. repeat split; reflexivity.
+  - intros sup b IHb H. destruct (IHb H) as (A1 & A2 & A3). rewrite A1, A3.
+    repeat split; try reflexivity. destruct sup; auto.
+  - intros b IHb hs IHhs e IHe f IHf H.
+    apply orb_false_iff in H. destruct H as [H Hf]. apply orb_false_iff in H. destruct H as [H He].
+    apply orb_false_iff in H. destruct H as [Hb Hh].
+    destruct (IHb Hb) as (A1 & A2 & A3). destruct (IHhs Hh) as (B1 & B3).
+    destruct (IHe He) as (C1 & C2 & C3). destruct (IHf Hf) as (D1 & D2 & D3).
+    rewrite A1, B1, C1, D1, A3, B3, C3, D3. cbn. rewrite orb_true_r. repeat split; reflexivity.
+  - intros s IHs r IHr H. apply orb_false_iff in H. destruct H as [Hs Hr].
+    destruct (IHs Hs) as (A1 & A2 & A3). destruct (IHr Hr) as (B1 & B2 & B3).
+    rewrite A1, B1, A2, B2, A3, B3. repeat split; reflexivity.
+  - intros h IHh r IHr H. apply orb_false_iff in H. destruct H as [Hh Hr].
+    destruct (IHh Hh) as (A1 & A2 & A3). destruct (IHr Hr) as (B1 & B3).
+    rewrite A1, B1, A3, B3. repeat split; reflexivity.
+Qed.
+
+Lemma nojump_lower_ok : forall p, has_jump_b p = false -> lower_ok p = true.
+Proof. intros p H. destruct nojump_lower_ok_all as (_ & Hb & _). apply (Hb p H). Qed.
+
+Lemma block_invariant : forall b st, has_jump_b b = false -> live (cur st) ->
+  (forall t v u d0, upath_b b t v u -> satv v d0 (cur st) -> In (u, applyv t v d0) (u2d (visit_b b st))) /\
+  (forall t, path_b b ONorm t -> live (cur (visit_b b st)) /\
+     forall v d0, satv v d0 (cur st) -> satv v (applyv t v d0) (cur (visit_b b st))).
+Proof.
+  intros b st Hj Hl. destruct sound_all as (_ & Pb & _). destruct (Pb b Hj st) as (_ & _ & S).
+  exact (S Hl).
+Qed.
